@@ -263,6 +263,11 @@ StepOp(m0, o) ==
 
 \* end of a trace: data returned earlier must still read the same
 StepEnd(m0, o) ==
-    [m0 EXCEPT !.flags = IF ~o.rules_stable THEN << Flag("C17", "rule data returned by GetRules changed after later receives") >> ELSE << >>]
+    [m0 EXCEPT !.flags =
+        (IF ~o.rules_stable THEN << Flag("C17", "rule data returned by GetRules changed after later receives") >> ELSE << >>)
+        \o (IF ~o.status_stable
+            THEN << Flag("C16", "a status returned by GetStatus no longer holds the fields the kernel sent for that request (a later call changed it)"),
+                    Flag("C08", "data returned by GetStatus changed after a later call") >>
+            ELSE << >>)]
 
 =============================================================================
